@@ -605,11 +605,14 @@ def r5_wrappers(ctx):
                 ctx.unanalysable('C01.R5', 'C01.R5/wrapper:%s/missing' % w, SRE + w, None, None, cfg)
                 continue
             an = analyse(ctx, cfg, SRE + w, [], uninterpreted=lambda p: True)
-            okw = False
+            # every path of the wrapper answers through MANAGER.with(closure over the arguments): no shortcut may build
+            # its result with another manager or without consulting the global one
+            okw = bool(an.rets) and not an.panics
             for o in an.rets:
                 t = an.ip.to_term(o.state, o.value)
-                okw = (t[0] == 'call' and t[1].endswith('LocalKey::<T>::with') and t[2][1][0] == 'closure' and t[2][1][1] == clo.path and
-                       t[2][1][2] == tuple(A(i) for i in range(nargs)) and refers_to_manager(cr, t[2][0]))
+                okw = okw and (t[0] == 'call' and t[1].endswith('LocalKey::<T>::with') and t[2][1][0] == 'closure' and t[2][1][1] == clo.path and
+                               t[2][1][2] == tuple(A(i) for i in range(nargs)) and refers_to_manager(cr, t[2][0]) and
+                               len([c for c in o.state.calls if not c[0].endswith('LocalKey::<T>::with')]) == 0)
             # closure body: method on the borrowed manager with the captured arguments in order
             an2 = analyse(ctx, cfg, clo.path, [], uninterpreted=lambda p: True)
             okc = False
